@@ -1,7 +1,9 @@
 package main
 
 // C03: foreground handlers see events one at a time, in wire order; CONNECTED / DISCONNECTED
-// placement.  Sessions of 20..400 lines over 2..5 verbs (0..3 foreground, 0..2 background
+// placement.  Every session has a line of 4097..12000 bytes (long trailing or long IRCv3 tag) whose
+// handlers check that it arrived whole; a sixth of the sessions are of the kind "reconnect while
+// closing" (endmode 3).  Sessions of 20..400 lines over 2..5 verbs (0..3 foreground, 0..2 background
 // handlers each), a 001 line, the connection left up / ended by EOF / by a user Close().
 func init() {
 	props["C03"] = &Prop{Gen: c03Gen, Exec: dspRunChild, Class: dspClass}
@@ -13,6 +15,13 @@ func c03Gen(r *Rand, tier string, scale int, emit func(Fields)) {
 	}
 	for n := 0; n < scale; n++ {
 		o := dspGenOpt{ends: true, panics: n%5 == 4, parks: n%7 == 6}
-		emit(dspGenCase(r, o, n < 3).encode())
+		c := dspGenCase(r, o, n < 3)
+		if n >= 3 {
+			dspForceLong(c) // at least one line longer than the 4096-byte read buffer
+		}
+		if n%6 == 5 {
+			dspMakeReconnect(r, c) // Close() and Connect() issued during a slow foreground handler
+		}
+		emit(c.encode())
 	}
 }
